@@ -52,6 +52,16 @@ var (
 		{S: "x509.subject:C=US,,O=o", kind: "x509"},
 		{S: "x509.subject:C=US,ST=WA,S=OR,O=o", kind: "x509"},
 		{S: "x509.subject:not a dn", kind: "x509"},
+		// a mandatory attribute that is present with an EMPTY value does not "contain C, ST and O"
+		{S: "x509.subject:C=US,ST=WA,O=", kind: "x509"},
+		{S: "x509.subject:C=,ST=WA,O=o", kind: "x509"},
+		{S: "x509.subject:C=US,S=,O=o,CN=x", kind: "x509"},
+		{S: "x509.subject:C=US,ST=WA,O= ,CN=x", kind: "x509"},
+		// syntax damage AFTER a complete C, ST, O front
+		{S: "x509.subject:C=US,ST=WA,O=o,,CN=x", kind: "x509"},
+		{S: "x509.subject:C=US,ST=WA,O=o,CN", kind: "x509"},
+		{S: "x509.subject:C=US,ST=WA,O=o,CN=x\\", kind: "x509"},
+		{S: "x509.subject:C=US,ST=WA,O=o,", kind: "x509"},
 	}
 	scopesV = []tagged{{S: "*", Valid: true, kind: "wild"}, {S: "reg.io/a", Valid: true}, {S: "reg.io/a/b", Valid: true}, {S: "reg.io/ab", Valid: true}, {S: "localhost:5000/x", Valid: true}, {S: "r-1.example.com/a_b/c-d", Valid: true}, {S: "REG.io/a", Valid: true}, {S: "reg.io/b", Valid: true}, {S: "reg.io/c", Valid: true},
 		{S: "reg.io"}, {S: "reg.io/A"}, {S: "reg.io/a:tag"}, {S: "https://reg.io/a"}, {S: "reg.io/a/"}, {S: "reg.io//a"}, {S: "reg.io/*"}, {S: ""}, {S: "reg.io/a@sha256:abc"}, {S: "/a"}, {S: "**"}}
